@@ -36,7 +36,17 @@ pub fn run_case(u: &Universe, case: &Value) -> Vec<Value> {
     let abs: Vec<String> = case["leaves"].as_array().unwrap().iter().map(ast_to_abs).collect();
     let mut ev = json!({"id": format!("{}", case["id"]), "ev": "trsat", "ctx": "tap", "ik": ik, "leaves": case["leaves"], "dl": case["dl"],
                         "abs": format!("tr(K{},[{}] depths {:?})", ik, abs.join(" | "), depths), "msg": "", "res": []});
-    let worlds: Vec<World> = case["worlds"].as_array().unwrap().iter().map(World::from_json).collect();
+    // the world lets the internal key sign exactly when its id is among the world's signers
+    let worlds: Vec<World> = case["worlds"]
+        .as_array()
+        .unwrap()
+        .iter()
+        .map(|wj| {
+            let mut w = World::from_json(wj);
+            w.ik = w.sigs.contains(&ik);
+            w
+        })
+        .collect();
     match catch_unwind(|| Desc::from_str(&ds)) {
         Err(_) => ev["parse"] = json!("panic"),
         Ok(Err(e)) => {
@@ -46,7 +56,7 @@ pub fn run_case(u: &Universe, case: &Value) -> Vec<Value> {
         Ok(Ok(d)) => {
             ev["parse"] = json!("ok");
             let sane: Vec<bool> = match &d {
-                Descriptor::Tr(tr) => tr.leaves().map(|l| l.miniscript().sanity_check().is_ok()).collect(),
+                Descriptor::Tr(tr) => tr.leaves().map(|l| l.miniscript().validate(&<miniscript::Tap as miniscript::ScriptContext>::SANE).is_ok()).collect(),
                 _ => vec![],
             };
             ev["st"] = json!({"max_weight": d.max_weight_to_satisfy().ok().map(|w| w.to_wu() as i64).unwrap_or(-1), "sane": sane});
